@@ -6,6 +6,7 @@ import Driver.Wire
 import KodaModel.Cache
 import KodaModel.Render
 import KodaModel.Schema
+import KodaModel.Signature
 
 open Lean (Json)
 open Koda Koda.Wire
@@ -203,6 +204,52 @@ def handleDerive (j : Json) : D Json := do
     fields := fields ++ [("sync", runs[0]!), ("async", runs[1]!), ("inputHasType", Json.bool (hasType ann x))]
     pure (Json.mkObj fields)
 
+def getPKind (s : String) : D PKind :=
+  match s with
+  | "posOnly" => pure .posOnly | "posOrKw" => pure .posOrKw | "varPos" => pure .varPos
+  | "kwOnly" => pure .kwOnly | "varKw" => pure .varKw
+  | k => throw s!"bad param kind {k}"
+
+def optV (j : Json) (k : String) : D (Option V) :=
+  match fldOpt j k with
+  | none => pure none
+  | some v => do pure (some (← getV v))
+
+def handleWrap (j : Json) : D Json := do
+  let sj ← fld j "sig"
+  let params ← (← arr sj "params").toList.mapM (fun p => do
+    pure ({ name := ← str p "name", kind := ← getPKind (← str p "kind"), v := ← optV p "v" } : Param))
+  let ign ← match fldOpt sj "ignoredKw" with
+    | some a => do (← a.getArr?).toList.mapM (fun x => x.getStr?)
+    | none => pure []
+  let sg : SigM := { params := params, ret := ← optV sj "ret", ignoredKw := ign }
+  let mode ← getMode (← str j "mode")
+  let o ← getOracle j
+  let cj ← fld j "call"
+  let args ← (← arr cj "args").toList.mapM getVal
+  let kwargs ← (← arr cj "kwargs").toList.mapM (fun p => do
+    let a ← p.getArr?
+    if a.size ≠ 2 then throw "bad kwarg"
+    pure (← a[0]!.getStr?, ← getVal a[1]!))
+  let bj ← fld j "body"
+  let body : List PyVal → List (String × PyVal) → BodyRes ← match fldOpt bj "ret" with
+    | some r => do let v ← getVal r; pure (fun _ _ => BodyRes.ret v)
+    | none => do let i ← nat bj "exc"; pure (fun _ _ => BodyRes.exc i)
+  let ev : V → PyVal → Res := fun v x => run o (fun _ => .always 0) mode 400 v x
+  let (out, delivered) := wrapCall ev sg body ⟨args, kwargs⟩
+  let outJ' : Json := match out with
+    | .invalidArgs keys => Json.mkObj [("invalidArgs", Json.arr (keys.map (fun (s : String) => (s : Json))).toArray)]
+    | .invalidReturn => Json.mkObj [("invalidReturn", true)]
+    | .returned v => Json.mkObj [("returned", valJ v)]
+    | .bodyRaised i => Json.mkObj [("bodyRaised", i)]
+    | .validationRaised e => Json.mkObj [("raised", exnJ e)]
+    | .fuel => Json.mkObj [("error", "fuel")]
+  let dJ : Json := match delivered with
+    | none => Json.null
+    | some (a, k) => Json.mkObj [("args", Json.arr (a.map valJ).toArray),
+        ("kwargs", Json.arr (k.map (fun p => Json.arr #[(p.1 : Json), valJ p.2])).toArray)]
+  pure (Json.mkObj [("out", outJ'), ("delivered", dJ)])
+
 def handle (line : String) : Json :=
   match Json.parse line with
   | .error e => Json.mkObj [("error", "bad-json"), ("detail", e)]
@@ -215,6 +262,7 @@ def handle (line : String) : Json :=
       | "render" => handleRender j
       | "schema" => handleSchema j
       | "derive" => handleDerive j
+      | "wrap" => handleWrap j
       | "proc" => handleProc j
       | "ping" => pure (Json.mkObj [("pong", true)])
       | op => throw s!"bad-op {op}"
